@@ -26,8 +26,11 @@ MANIFEST = dict(
 INVS = ["TypeOK", "Transparent", "OffLoop", "LoopServes", "SeesCallerState", "NoLeakBack", "TracedRecords", "KeepsMetadata"]
 ALL_KINDS = ["asynchronous_fn", "asynchronous_method", "wrap_async_sync", "wrap_async_async", "traced_sync", "traced_async"]
 ALL_SIGS = ["pos", "kw", "defaults", "varargs"]
-CALLS = {"pos": ((1, 2), {}), "kw": ((), {"a": 1, "b": 2}), "defaults": ((1,), {}), "varargs": ((1, 2, 3), {"x": 4})}
-EXPECT = {"pos": (1, 2, (), {}), "kw": (1, 2, (), {}), "defaults": (1, 2, (), {}), "varargs": (1, 2, (3,), {"x": 4})}
+# keyword arguments may carry ANY name - also the names the wrappers use for their own parameters and attributes
+_KW = {"x": 4, "instance": 5, "function": 6, "executor": 7, "loop": 8, "args": 9, "kwargs": 10, "self_": 11, "cls": 12,
+       "owner": 13, "name": 14}
+CALLS = {"pos": ((1, 2), {}), "kw": ((), {"a": 1, "b": 2}), "defaults": ((1,), {}), "varargs": ((1, 2, 3), dict(_KW))}
+EXPECT = {"pos": (1, 2, (), {}), "kw": (1, 2, (), {}), "defaults": (1, 2, (), {}), "varargs": (1, 2, (3,), dict(_KW))}
 
 
 def real_wait(seconds):
